@@ -1,4 +1,4 @@
-use super::field_utils::parse_party_identifier;
+use super::field_utils::{ensure_no_surplus_lines, parse_party_identifier};
 use super::swift_utils::{parse_bic, parse_max_length};
 use crate::errors::ParseError;
 use crate::traits::SwiftField;
@@ -49,6 +49,7 @@ impl SwiftField for Field53A {
 
         // Parse BIC code
         let bic = parse_bic(lines[line_idx])?;
+        ensure_no_surplus_lines(&lines, line_idx + 1, "Field 53A")?;
 
         Ok(Field53A {
             party_identifier,
@@ -103,15 +104,16 @@ impl SwiftField for Field53B {
         //   - Starts with '/' -> party_identifier
         //   - Looks like BIC (8-11 uppercase alphanumeric) -> party_identifier
         //   - Otherwise -> location
-        if lines.len() >= 2 {
+        ensure_no_surplus_lines(&lines, 2, "Field 53B")?;
+        if lines.len() == 2 {
             // Two lines: first is party_identifier, second is location
-            if !lines[0].is_empty() {
-                party_identifier =
-                    Some(parse_max_length(lines[0], 34, "Field53B party_identifier")?);
+            if lines[0].is_empty() || lines[1].is_empty() {
+                return Err(ParseError::InvalidFormat {
+                    message: "Field 53B must not contain an empty line".to_string(),
+                });
             }
-            if !lines[1].is_empty() {
-                location = Some(parse_max_length(lines[1], 35, "Field53B location")?);
-            }
+            party_identifier = Some(parse_max_length(lines[0], 34, "Field53B party_identifier")?);
+            location = Some(parse_max_length(lines[1], 35, "Field53B location")?);
         } else if lines.len() == 1 && !lines[0].is_empty() {
             let line = lines[0];
 
